@@ -64,6 +64,8 @@ def shards(tier):
             for o1 in OPS:
                 if o1 == D.UNWATCH and q:
                     continue
+                if q and (n1, n2) != (0, 2) and o1 not in (D.SET_A, D.UPDATE, D.TRIGGER_A):
+                    continue       # quick: every first opcode only for the watcher pair (a | a,b)
                 for o2 in OPS:
                     c = dict(k=k, nw=nw, n1=n1, n2=n2, o1=o1, o2=o2, level=0, selfun=False)
                     if q:
@@ -73,11 +75,13 @@ def shards(tier):
                     if nw < 3:
                         c.update(n3=0, oc3=False, qd3=False, pr3=0, kw3=False)
                     out.append(dict(name='n%d%d_o%d%d' % (n1, n2, o1, o2), module='harness.c03', fn='prog', consts=c,
-                                    budget_s=60 if q else 600))
+                                    budget_s=30 if q else 600))
     # class-level registration and assignment (fresh class per path)
     for (n1, n2) in (((0, 2),) if q else ((0, 2), (2, 1), (3, 0))):
         for o1 in OPS:
             if o1 == D.UNWATCH and q:
+                continue
+            if q and o1 not in (D.SET_A, D.UPDATE, D.TRIGGER_A):
                 continue
             for o2 in OPS:
                 c = dict(k=2 if q else 3, nw=2, n1=n1, n2=n2, o1=o1, o2=o2, level=1, selfun=False, kw1=False, n3=0, oc3=False, qd3=False, pr3=0, kw3=False)
@@ -93,7 +97,7 @@ def shards(tier):
             c = dict(k=2, nw=3, n1=0, n2=0, n3=2, o1=o1, o2=o2, level=0, selfun=True, act=False, kw1=False, kw2=False, kw3=False)
             for j in range(3, 5):
                 c.update({'o%d' % j: 0, 'x%d' % j: 0})
-            out.append(dict(name='selfun_o%d%d' % (o1, o2), module='harness.c03', fn='prog', consts=c, budget_s=60 if q else 300))
+            out.append(dict(name='selfun_o%d%d' % (o1, o2), module='harness.c03', fn='prog', consts=c, budget_s=25 if q else 300))
     return out
 
 
